@@ -886,7 +886,8 @@ class Interp:
                 di = i - (len(params) - nd)
                 if di < 0:
                     raise PyRaise("TypeError", "%s() missing required argument '%s'" % (f.name, p))
-                local[p] = self.ev(defaults[di], denv)
+                dv = getattr(f, "default_values", None)
+                local[p] = dv[di] if dv is not None and di < len(dv) else self.ev(defaults[di], denv)
         if a.vararg is not None:
             local[a.vararg.arg] = tuple(args[len(params):])
         for p, d in zip(a.kwonlyargs, a.kw_defaults):
@@ -1622,7 +1623,14 @@ class Interp:
         self.do_import(env.module, s, env.local)
 
     def ex_FunctionDef(self, s, env):
-        env.local[s.name] = FuncVal(s, env.module.name, None, s.name, closure=env)
+        fv = FuncVal(s, env.module.name, None, s.name, closure=env)
+        # default values are evaluated ONCE, when the def statement runs, in the defining environment
+        try:
+            fv.default_values = [self.ev(d, env) for d in s.args.defaults]
+            fv.kw_default_values = [self.ev(d, env) if d is not None else _MISSING for d in s.args.kw_defaults]
+        except (Unsupported, KeyError):
+            fv.default_values = None
+        env.local[s.name] = fv
 
     def ex_Raise(self, s, env):
         if s.exc is None:
